@@ -154,13 +154,15 @@ struct Builder {
 	kit: Kit,
 	states: BTreeMap<usize, BTreeMap<usize, (u64, bool)>>,
 	stats: BTreeMap<String, u64>,
+	/// outputs the random transactions must not spend (kept for a steered block)
+	reserved: std::collections::BTreeSet<usize>,
 }
 
 impl Builder {
 	fn spendable(&self, parent: usize, h: u64) -> Vec<usize> {
 		self.states[&parent]
 			.iter()
-			.filter(|(_, (c, cb))| !*cb || h >= *c + MATURITY)
+			.filter(|(o, (c, cb))| (!*cb || h >= *c + MATURITY) && !self.reserved.contains(*o))
 			.map(|(o, _)| *o)
 			.collect()
 	}
@@ -424,7 +426,8 @@ fn exec(sh: &Shared, op: &Op, log: &mut ThreadLog, tid: usize) {
 			let tail_before = c.tail().map(|t| t.height).unwrap_or(0);
 			let r = c.compact();
 			let tail_after = c.tail().map(|t| t.height).unwrap_or(0);
-			if tail_after > tail_before {
+			// (the tail moves 0 -> 1 when the first block is processed: that is not compaction)
+			if tail_after > tail_before.max(1) {
 				sh.compacted.store(true, Ordering::SeqCst);
 				note(log, "compact:pruned".into());
 			}
@@ -471,29 +474,92 @@ fn run(out: &mut Out, rng: &mut Rng, work: &str, cfg: &RunCfg, stats: &mut BTree
 	let t_build = Instant::now();
 	out.raw("chain reset");
 	let kit = Kit::new(&format!("{}/builder{}", work, run));
-	let mut b = Builder { kit, states: BTreeMap::new(), stats: BTreeMap::new() };
+	let mut b = Builder { kit, states: BTreeMap::new(), stats: BTreeMap::new(), reserved: Default::default() };
 	let mut s0 = BTreeMap::new();
 	s0.insert(0usize, (0u64, true));
 	b.states.insert(0, s0);
 
 	// --- tree: trunk + competing forks near the tip, all leaf works distinct
-	let trunk_len = if cfg.long { rng.range(84, 90) } else { rng.range(9, 15) };
+	// `long` runs are steered (see `cross_compaction_reorg`): the trunk tip T is the only block at
+	// height 81 (the first height at which compact() acts: the body tail is at height 1 from the
+	// first block on, and compact() waits for tail + horizon 20 + 60), it spends outputs B created before height 31 whose
+	// sibling leaves A were spent at height 31 (all far behind the horizon 81 - 20); two more blocks
+	// are built but not delivered in the concurrent phase: X, heavier than T on T's parent and not
+	// spending the B's, and Y on X spending them.
+	let steer = cfg.long;
+	let trunk_len = if steer { 81 } else { rng.range(9, 15) };
 	let max_tx = if cfg.long { 1 } else { 3 };
 	let mut trunk = vec![0usize];
 	let mut tip = 0usize;
-	for _ in 0..trunk_len {
+	let mut pairs: Vec<(usize, usize)> = vec![]; // (A spent early, B spent by T)
+	let body_len = if steer { trunk_len - 1 } else { trunk_len };
+	for i in 0..body_len {
 		let d = rng.range(1, 5);
+		if steer && i == 30 {
+			// pick sibling leaf pairs among the outputs unspent now
+			let st = b.states[&tip].clone();
+			let h = b.kit.blks[tip].height + 1;
+			let mut by_leaf: BTreeMap<u64, usize> = BTreeMap::new();
+			for o in st.keys() {
+				if let Ok(Some((_, pos))) = b.kit.builder().get_unspent(b.kit.outs[*o].commit) {
+					if let Some(ix) = grin_core::core::pmmr::pmmr_leaf_to_insertion_index(pos.pos - 1) {
+						by_leaf.insert(ix, *o);
+					}
+				}
+			}
+			let spendable_now = |o: usize| {
+				let (c, cb) = st[&o];
+				(!cb || h >= c + MATURITY) && b.kit.outs[o].value >= 20
+			};
+			for (ix, o) in by_leaf.iter() {
+				if ix % 2 != 0 || pairs.len() >= 3 {
+					continue;
+				}
+				if let Some(o2) = by_leaf.get(&(ix + 1)) {
+					if b.kit.outs[*o].value < 20 || b.kit.outs[*o2].value < 20 {
+						continue;
+					}
+					match (spendable_now(*o), spendable_now(*o2)) {
+						(true, true) => pairs.push(if rng.chance(1, 2) { (*o, *o2) } else { (*o2, *o) }),
+						(true, false) => pairs.push((*o, *o2)),
+						(false, true) => pairs.push((*o2, *o)),
+						_ => {}
+					}
+				}
+			}
+			let specs: Vec<TxSpec> = pairs
+				.iter()
+				.map(|(a, _)| TxSpec { inputs: vec![*a], outputs: vec![(b.kit.outs[*a].value - 2, None)], kernel: KSpec::Plain(2) })
+				.collect();
+			match b.kit.new_block(tip, d, &specs) {
+				Ok(id) => {
+					let st2 = state_after(&b.kit, &b.states[&tip], &b.kit.blks[id].block);
+					b.states.insert(id, st2);
+					tip = id;
+					trunk.push(id);
+					for (_, bb) in pairs.iter() {
+						b.reserved.insert(*bb);
+					}
+					continue;
+				}
+				Err(e) => {
+					*b.stats.entry(format!("generator:steer-A:{}", e)).or_insert(0) += 1;
+					pairs.clear();
+				}
+			}
+		}
 		if let Some(id) = b.add(rng, tip, d, max_tx) {
 			tip = id;
 			trunk.push(id);
 		}
 	}
 	let nforks = rng.range(2, 4) as usize;
-	let mut leaves = vec![tip];
+	let mut leaves = if steer { vec![] } else { vec![tip] };
 	for _ in 0..nforks {
 		let back = rng.range(1, 6).min(trunk.len() as u64 - 1) as usize;
 		let start = trunk[trunk.len() - 1 - back];
-		let depth = rng.range(1, 6);
+		// steered: no fork block at or above T's height
+		let depth = if steer { rng.range(1, 6).min(back as u64) } else { rng.range(1, 6) };
 		let mut t = start;
 		for _ in 0..depth {
 			let d = rng.range(1, 7);
@@ -506,8 +572,53 @@ fn run(out: &mut Out, rng: &mut Rng, work: &str, cfg: &RunCfg, stats: &mut BTree
 			leaves.push(t);
 		}
 	}
+	// steered: T last among the delivered blocks, heavier than every fork leaf; then X and Y
+	let mut xreorg: Option<(usize, usize, usize, Vec<usize>)> = None; // (T, X, Y, the B outputs)
+	if steer {
+		let parent = tip;
+		let maxw = leaves.iter().map(|l| b.kit.blks[*l].work).max().unwrap_or(0).max(b.kit.blks[parent].work);
+		let d_t = maxw - b.kit.blks[parent].work + rng.range(1, 3);
+		let bs: Vec<usize> = pairs.iter().map(|p| p.1).collect();
+		let spend_bs = |b: &Builder| -> Vec<TxSpec> {
+			bs.iter()
+				.map(|o| TxSpec { inputs: vec![*o], outputs: vec![(b.kit.outs[*o].value - 2, None)], kernel: KSpec::Plain(2) })
+				.collect()
+		};
+		let specs = spend_bs(&b);
+		let t_id = match b.kit.new_block(parent, d_t, &specs) {
+			Ok(id) => id,
+			Err(e) => panic!("steered head block could not be built: {}", e),
+		};
+		let st2 = state_after(&b.kit, &b.states[&parent], &b.kit.blks[t_id].block);
+		b.states.insert(t_id, st2);
+		trunk.push(t_id);
+		tip = t_id;
+		leaves.push(t_id);
+		if !bs.is_empty() {
+			// X: heavier, same height, does not touch the B's (still reserved); Y spends them on X
+			let d_x = d_t + rng.range(1, 4);
+			let x_id = b.add(rng, parent, d_x, 1);
+			if let Some(x_id) = x_id {
+				let specs = spend_bs(&b);
+				match b.kit.new_block(x_id, rng.range(1, 4), &specs) {
+					Ok(y_id) => {
+						let st3 = state_after(&b.kit, &b.states[&x_id], &b.kit.blks[y_id].block);
+						b.states.insert(y_id, st3);
+						xreorg = Some((t_id, x_id, y_id, bs.clone()));
+					}
+					Err(e) => {
+						*b.stats.entry(format!("generator:steer-Y:{}", e)).or_insert(0) += 1;
+					}
+				}
+			}
+		}
+		*b.stats.entry(format!("steer:sibling-pairs={}", pairs.len())).or_insert(0) += 1;
+		if xreorg.is_none() {
+			*b.stats.entry("steer:FAILED-no-cross-compaction-reorg-scenario".into()).or_insert(0) += 1;
+		}
+	}
 	// make the maximum total work unique (ties are resolved first-seen = order dependent)
-	loop {
+	while !steer {
 		let maxw = leaves.iter().map(|l| b.kit.blks[*l].work).max().unwrap();
 		let w: Vec<usize> = leaves.iter().cloned().filter(|l| b.kit.blks[*l].work == maxw).collect();
 		if w.len() == 1 {
@@ -522,8 +633,17 @@ fn run(out: &mut Out, rng: &mut Rng, work: &str, cfg: &RunCfg, stats: &mut BTree
 			None => break,
 		}
 	}
+	let _ = tip;
 	let kit = &b.kit;
 	let nblk = kit.blks.len();
+	// blocks delivered in the concurrent phase: all but X and Y (the last two built)
+	let n1 = match &xreorg {
+		Some((_, x, y, _)) => {
+			assert!(*x == nblk - 2 && *y == nblk - 1);
+			*x
+		}
+		None => nblk,
+	};
 	let best = *leaves.iter().max_by_key(|l| kit.blks[**l].work).unwrap();
 
 	// --- transactions to validate (built on the best leaf's state, never included in a block):
@@ -603,14 +723,16 @@ fn run(out: &mut Out, rng: &mut Rng, work: &str, cfg: &RunCfg, stats: &mut BTree
 	let twin_name = format!("cw{}", run);
 	let twin = Subject::new(&format!("{}/twin{}", work, run), &kit.genesis);
 	out.raw(&format!("chain new {}", twin_name));
-	for id in 1..nblk {
+	for id in 1..n1 {
 		let r = twin.deliver_block(&kit.blks[id].block);
 		out.line(&format!("chain deliver {} b{}", twin_name, id), &r);
 	}
 	let twin_obs = twin.obs(kit);
 	out.line(&format!("chain obs {}", twin_name), &twin_obs);
 	let twin_roots = twin.roots();
-	drop(twin);
+	// the twin (never compacted) lives on for the cross-compaction reorg
+	let twin_keep = if xreorg.is_some() { Some(twin) } else { None };
+	let mut xr_results: Vec<XrResult> = vec![];
 	if std::env::var("VERIF_DEBUG").is_ok() {
 		eprintln!("run {} build+twin {:?}", run, t_build.elapsed());
 	}
@@ -673,6 +795,19 @@ fn run(out: &mut Out, rng: &mut Rng, work: &str, cfg: &RunCfg, stats: &mut BTree
 						let op = rand_read(rng, &sc);
 						progs[t].push(op);
 					}
+				}
+			}
+		}
+		if let Some((t_id, _, _, _)) = &xreorg {
+			// the thread that delivers T compacts right after it: the first moment compact() acts
+			// (head height 81) is with T - which spends the old outputs B - as head, other threads
+			// still running
+			for (t, ls) in assign.iter().enumerate() {
+				if ls.contains(t_id) {
+					progs[t].push(Op::Deliver(*t_id));
+					progs[t].push(Op::Compact);
+					progs[t].push(Op::ReadHead);
+					break;
 				}
 			}
 		}
@@ -909,6 +1044,10 @@ fn run(out: &mut Out, rng: &mut Rng, work: &str, cfg: &RunCfg, stats: &mut BTree
 			));
 		}
 
+		if let Some((t_id, x_id, y_id, bs)) = &xreorg {
+			let r = cross_compaction_reorg(out, &shared, kit, *t_id, *x_id, *y_id, bs, run, n, stats);
+			xr_results.push(r);
+		}
 		if std::env::var("VERIF_DEBUG").is_ok() {
 			eprintln!("run {} total {:?}", run, t_build.elapsed());
 		}
@@ -920,6 +1059,276 @@ fn run(out: &mut Out, rng: &mut Rng, work: &str, cfg: &RunCfg, stats: &mut BTree
 		out.line(&format!("conc sim seed={} progs={}", rng.below(1 << 30), progs_s.join(",")), "finished");
 		out.flush();
 	}
+
+	// --- the twin gets the same extra blocks sequentially, never having compacted
+	if let (Some((t_id, x_id, y_id, bs)), Some(twin)) = (&xreorg, twin_keep) {
+		let r = twin.deliver_block(&kit.blks[*t_id].block);
+		out.line(&format!("chain deliver {} b{}", twin_name, t_id), &r);
+		let r = twin.deliver_block(&kit.blks[*x_id].block);
+		out.line(&format!("chain deliver {} b{}", twin_name, x_id), &r);
+		let obs_x = twin.obs(kit);
+		out.line(&format!("chain obs {}", twin_name), &obs_x);
+		let roots_x = twin.roots();
+		let proofs_x: Vec<String> = bs
+			.iter()
+			.map(|o| match twin.c().get_merkle_proof_for_pos(kit.outs[*o].commit) {
+				Ok(p) => hex(&grin_core::ser::ser_vec(&p, grin_core::ser::ProtocolVersion(1)).unwrap_or_default()),
+				Err(e) => format!("err:{}", error_class(&e)),
+			})
+			.collect();
+		for xr in xr_results.iter() {
+			// the concurrently used, compacted chain after the one-block reorg across the compaction head
+			out.line(&format!("chain obs {}", twin_name), &xr.obs_x);
+			if xr.obs_x != obs_x || xr.roots_x != roots_x {
+				out.raw(&format!(
+					"#ORACLE-FAIL C17 run={} seed={} threads={}: after compaction at head b{} and the one-block reorg to b{} the state differs from the twin that never compacted: {} roots {} / twin {} roots {}",
+					run, seed_from_env(), xr.threads, t_id, x_id, xr.obs_x, xr.roots_x, obs_x, roots_x
+				));
+			}
+			if xr.proofs_x != proofs_x {
+				out.raw(&format!(
+					"#ORACLE-FAIL C17 run={} seed={} threads={}: Merkle proofs of the outputs unspent again after the reorg across the compaction head differ from the twin's: {:?} / twin {:?}",
+					run, seed_from_env(), xr.threads, xr.proofs_x.iter().map(|p| &p[..p.len().min(24)]).collect::<Vec<_>>(), proofs_x.iter().map(|p| &p[..p.len().min(24)]).collect::<Vec<_>>()
+				));
+			}
+		}
+		let r = twin.deliver_block(&kit.blks[*y_id].block);
+		out.line(&format!("chain deliver {} b{}", twin_name, y_id), &r);
+		let obs_y = twin.obs(kit);
+		out.line(&format!("chain obs {}", twin_name), &obs_y);
+		let roots_y = twin.roots();
+		for xr in xr_results.iter() {
+			out.line(&format!("chain obs {}", twin_name), &xr.obs_y);
+			if xr.obs_y != obs_y || xr.roots_y != roots_y {
+				out.raw(&format!(
+					"#ORACLE-FAIL C17 run={} seed={} threads={}: after the block b{} spending the restored outputs the state differs from the twin that never compacted: {} roots {} / twin {} roots {}",
+					run, seed_from_env(), xr.threads, y_id, xr.obs_y, xr.roots_y, obs_y, roots_y
+				));
+			}
+		}
+		*stats.entry("xreorg:twin-compared".into()).or_insert(0) += xr_results.len() as u64;
+		out.flush();
+	}
+}
+
+#[derive(Default)]
+struct XrResult {
+	threads: usize,
+	obs_x: String,
+	roots_x: String,
+	proofs_x: Vec<String>,
+	obs_y: String,
+	roots_y: String,
+}
+
+fn chain_obs(c: &Chain, kit: &Kit) -> String {
+	let head = c.head().unwrap();
+	let hhead = c.header_head().unwrap();
+	let mut u = vec![];
+	for o in &kit.outs {
+		if let Ok(Some(_)) = c.get_unspent(o.commit) {
+			u.push(format!("o{}", o.id));
+		}
+	}
+	format!("head={} hhead={} utxo=[{}]", kit.bid(&head.last_block_h), kit.bid(&hhead.last_block_h), u.join(","))
+}
+
+fn chain_roots(c: &Chain) -> String {
+	let ts = c.txhashset();
+	let ts = ts.read();
+	match ts.roots() {
+		Ok(r) => format!(
+			"{}:{}:{}:{}",
+			hex(&r.output_roots.pmmr_root.as_bytes()[..8]),
+			hex(&r.output_roots.bitmap_root.as_bytes()[..8]),
+			hex(&r.rproof_root.as_bytes()[..8]),
+			hex(&r.kernel_root.as_bytes()[..8])
+		),
+		Err(e) => format!("err:{:?}", e),
+	}
+}
+
+/// C17, final state after concurrent compaction.  The threads have joined; compaction has run
+/// (concurrently, or - if no thread got to it - now) with head T, a block that spends outputs B
+/// older than the horizon whose sibling leaves were spent long ago.  Two peer threads now deliver,
+/// concurrently, a duplicate of T and the heavier competitor X at T's height that does not spend
+/// the B's: a one-block reorg across the compaction head.  Afterwards: the B's are unspent again
+/// with data and Merkle proof, validate(false) passes, the block Y spending them is accepted.  The
+/// comparison with the twin that never compacted is made by the caller.  A panic in any thread is
+/// an oracle failure.
+#[allow(clippy::too_many_arguments)]
+fn cross_compaction_reorg(
+	out: &mut Out,
+	shared: &Arc<Shared>,
+	kit: &Kit,
+	t_id: usize,
+	x_id: usize,
+	y_id: usize,
+	bs: &[usize],
+	run: usize,
+	n: usize,
+	stats: &mut BTreeMap<String, u64>,
+) -> XrResult {
+	let c = &shared.chain;
+	let tag = format!("#ORACLE-FAIL C17 run={} seed={} threads={}: xreorg:", run, seed_from_env(), n);
+	let mut res = XrResult { threads: n, ..Default::default() };
+	let panic_msg = |e: Box<dyn std::any::Any + Send>| -> String {
+		if let Some(s) = e.downcast_ref::<&str>() {
+			s.to_string()
+		} else if let Some(s) = e.downcast_ref::<String>() {
+			s.clone()
+		} else {
+			"?".to_string()
+		}
+	};
+	// --- compaction with T as head
+	let head = c.head().unwrap();
+	if kit.bid(&head.last_block_h) != format!("b{}", t_id) {
+		out.raw(&format!("{} head before the reorg is {} not the steered block b{}", tag, kit.bid(&head.last_block_h), t_id));
+	}
+	if shared.compacted.load(Ordering::SeqCst) {
+		*stats.entry("xreorg:compaction-ran-concurrently-with-head-T".into()).or_insert(0) += 1;
+	} else {
+		let tail_before = c.tail().map(|t| t.height).unwrap_or(0);
+		match std::panic::catch_unwind(AssertUnwindSafe(|| c.compact())) {
+			Ok(Ok(())) => {}
+			Ok(Err(e)) => out.raw(&format!("{} compact() after the threads joined failed: {}", tag, error_class(&e))),
+			Err(e) => out.raw(&format!("{} compact() after the threads joined panicked: {}", tag, panic_msg(e))),
+		}
+		let tail_after = c.tail().map(|t| t.height).unwrap_or(0);
+		if tail_after > tail_before.max(1) {
+			*stats.entry("xreorg:compaction-ran-after-join-with-head-T".into()).or_insert(0) += 1;
+		}
+	}
+	let tail = c.tail().map(|t| t.height).unwrap_or(0);
+	if std::env::var("VERIF_DEBUG").is_ok() {
+		eprintln!("xreorg: head height {} tail {:?} compacted-flag {}", head.height, c.tail().map(|t| (t.height, t.last_block_h)), shared.compacted.load(Ordering::SeqCst));
+	}
+	if tail <= 1 {
+		out.raw(&format!("{} compaction never pruned (tail still {} at head height {}): the scenario was not reached", tag, tail, head.height));
+	}
+	*stats.entry(format!("xreorg:tail-height-after-compaction={}", tail)).or_insert(0) += 1;
+	for o in bs {
+		if let Ok(Some(_)) = c.get_unspent(kit.outs[*o].commit) {
+			out.raw(&format!("{} output o{} is unspent although the head b{} spends it", tag, o, t_id));
+		}
+	}
+	// --- two peers, concurrently: duplicate of the head, heavier competitor at the same height
+	let gate = Arc::new(std::sync::Barrier::new(2));
+	let (txc, rxc) = mpsc::channel::<(usize, Result<String, String>)>();
+	for (i, id) in [t_id, x_id].iter().enumerate() {
+		let sh = shared.clone();
+		let gate = gate.clone();
+		let txc = txc.clone();
+		let blk = kit.blks[*id].block.clone();
+		std::thread::spawn(move || {
+			setup_globals();
+			gate.wait();
+			let r = std::panic::catch_unwind(AssertUnwindSafe(|| sh.chain.process_block(blk, Options::SKIP_POW)));
+			let _ = txc.send((
+				i,
+				match r {
+					Ok(Ok(Some(_))) => Ok("ok:head".to_string()),
+					Ok(Ok(None)) => Ok("ok:fork".to_string()),
+					Ok(Err(e)) => Ok(format!("err:{}", error_class(&e))),
+					Err(e) => Err(if let Some(s) = e.downcast_ref::<&str>() {
+						s.to_string()
+					} else if let Some(s) = e.downcast_ref::<String>() {
+						s.clone()
+					} else {
+						"?".to_string()
+					}),
+				},
+			));
+		});
+	}
+	drop(txc);
+	let mut got = vec![String::new(), String::new()];
+	for _ in 0..2 {
+		match rxc.recv_timeout(Duration::from_secs(30)) {
+			Ok((i, Ok(r))) => got[i] = r,
+			Ok((i, Err(p))) => {
+				got[i] = "panic".to_string();
+				out.raw(&format!(
+					"{} thread delivering {} panicked: {}",
+					tag,
+					if i == 0 { format!("the duplicate of the head b{}", t_id) } else { format!("the heavier competitor b{}", x_id) },
+					p
+				));
+			}
+			Err(_) => {
+				out.raw(&format!("{} delivering the duplicate of b{} and the competitor b{} from two threads does not return (30 s)", tag, t_id, x_id));
+				out.flush();
+				std::process::exit(0);
+			}
+		}
+	}
+	*stats.entry(format!("xreorg:dup-head:{}", got[0])).or_insert(0) += 1;
+	*stats.entry(format!("xreorg:competitor:{}", got[1])).or_insert(0) += 1;
+	if !(got[0].starts_with("ok") || got[0] == "err:Unfit") {
+		out.raw(&format!("{} the duplicate of the head b{} was answered {}", tag, t_id, got[0]));
+	}
+	if got[1] != "ok:head" {
+		out.raw(&format!("{} the heavier competing block b{} at the height of the compaction head was answered {} (expected to become head)", tag, x_id, got[1]));
+	}
+	// --- the outputs T had spent are unspent again, with data and Merkle proof
+	let checks = std::panic::catch_unwind(AssertUnwindSafe(|| {
+		let mut bad: Vec<String> = vec![];
+		let mut proofs = vec![];
+		for o in bs {
+			let commit = kit.outs[*o].commit;
+			match c.get_unspent(commit) {
+				Ok(Some((_, pos))) => match c.get_unspent_output_at(pos.pos - 1) {
+					Ok(outp) => {
+						if outp.commitment() != commit {
+							bad.push(format!("o{}: get_unspent_output_at({}) returned another output", o, pos.pos - 1));
+						}
+					}
+					Err(e) => bad.push(format!("o{}: unspent again but its data is gone: get_unspent_output_at({}) = {}", o, pos.pos - 1, error_class(&e))),
+				},
+				Ok(None) => bad.push(format!("o{}: still spent after the block that spent it was reorged out", o)),
+				Err(e) => bad.push(format!("o{}: get_unspent = {}", o, error_class(&e))),
+			}
+			match c.get_merkle_proof_for_pos(commit) {
+				Ok(p) => proofs.push(hex(&grin_core::ser::ser_vec(&p, grin_core::ser::ProtocolVersion(1)).unwrap_or_default())),
+				Err(e) => {
+					bad.push(format!("o{}: no Merkle proof: {}", o, error_class(&e)));
+					proofs.push(format!("err:{}", error_class(&e)));
+				}
+			}
+		}
+		if let Err(e) = c.validate(false) {
+			bad.push(format!("validate(false) fails: {}", error_class(&e)));
+		}
+		(bad, proofs)
+	}));
+	match checks {
+		Ok((bad, proofs)) => {
+			for b in bad {
+				out.raw(&format!("{} after compaction at head b{} (tail {}) and the reorg to b{}: {}", tag, t_id, tail, x_id, b));
+			}
+			res.proofs_x = proofs;
+		}
+		Err(e) => out.raw(&format!("{} checking the restored outputs panicked: {}", tag, panic_msg(e))),
+	}
+	res.obs_x = chain_obs(c, kit);
+	res.roots_x = chain_roots(c);
+	// --- a block spending them is accepted
+	match std::panic::catch_unwind(AssertUnwindSafe(|| c.process_block(kit.blks[y_id].block.clone(), Options::SKIP_POW))) {
+		Ok(Ok(Some(_))) => {
+			*stats.entry("xreorg:respend-accepted".into()).or_insert(0) += 1;
+		}
+		Ok(Ok(None)) => out.raw(&format!("{} block b{} spending the restored outputs did not become head", tag, y_id)),
+		Ok(Err(e)) => out.raw(&format!("{} block b{} spending the restored outputs was rejected: {}", tag, y_id, error_class(&e))),
+		Err(e) => out.raw(&format!("{} processing block b{} spending the restored outputs panicked: {}", tag, y_id, panic_msg(e))),
+	}
+	if let Err(e) = c.validate(false) {
+		out.raw(&format!("{} validate(false) fails after b{}: {}", tag, y_id, error_class(&e)));
+	}
+	res.obs_y = chain_obs(c, kit);
+	res.roots_y = chain_roots(c);
+	*stats.entry(format!("xreorg:restored-outputs={}", bs.len())).or_insert(0) += 1;
+	res
 }
 
 /// Tiny two-thread programs on the REAL lock objects of a Chain (the `Arc<RwLock<..>>` handed out
